@@ -130,7 +130,7 @@ def run(tier, rep):
     docs = gen.sample(lq, 26000 if q else 400000, C.SEED, keep_short=2000) + gen.sample(l2, 8000 if q else 100000, C.SEED + 1) \
         + gen.twins(gen.sample(lq, 3000 if q else 40000, C.SEED + 2), C.SEED, per_doc=1)
     combos = [(p, m, qq) for p in ("commonmark", "js-default") for m in MODES for qq in QUOTES]
-    jobs = [combos[(k * 5 + 1) % len(combos)] + (d + ("\n" if k % 2 else ""),) for k, d in enumerate(docs)]
+    jobs = [combos[(k * 7 + 1) % len(combos)] + (d + ("\n" if k % 2 else ""),) for k, d in enumerate(docs)]   # 7: coprime to 30
     res = C.pmap(record, jobs, chunk=300)
     traces = [x[0] for x in res]
     verdicts, st = C.validate_traces("TypographerTrace", traces, shard=3000, heap="8g", existential=True)
